@@ -56,11 +56,12 @@ type hop struct {
 	PC      int       `json:"pc,omitempty"`
 	Size    int       `json:"size,omitempty"`
 	Iter    *iterSpec `json:"iter,omitempty"`
-	Pin     bool      `json:"pin,omitempty"`   // append: ask for the entry block to be pinned
-	Fault   bool      `json:"fault,omitempty"` // append/publish: the store refuses every block write during this operation
-	Keyed   bool      `json:"keyed,omitempty"` // new: the log uses the link-encrypting cbor codec (one key per history)
-	Clock   int       `json:"clock,omitempty"` // new: time of the clock handed to NewLog (LogOptions.Clock); 0 = none
-	Stall   string    `json:"stall,omitempty"` // append: "ctx" = the store is stuck and the caller's 50 ms deadline fires during the block write (must fail like a refused write); "slow" = the block write takes 2.5 s (must succeed, and only return once the block is stored)
+	Pin     bool      `json:"pin,omitempty"`         // append: ask for the entry block to be pinned
+	Fault   bool      `json:"fault,omitempty"`       // append/publish: the store refuses every block write during this operation
+	Keyed   bool      `json:"keyed,omitempty"`       // new: the log uses the link-encrypting cbor codec (one key per history)
+	Clock   int       `json:"clock,omitempty"`       // new: time of the clock handed to NewLog (LogOptions.Clock); 0 = none
+	Conc    int       `json:"concurrency,omitempty"` // new/open: LogOptions.Concurrency (0 = the default of 16)
+	Stall   string    `json:"stall,omitempty"`       // append: "ctx" = the store is stuck and the caller's 50 ms deadline fires during the block write (must fail like a refused write); "slow" = the block write takes 2.5 s (must succeed, and only return once the block is stored)
 }
 
 // access controller refusing a set of identities (by public key)
@@ -530,7 +531,7 @@ func (h *histRun) exec() {
 				if len(denied) > 0 {
 					ac = &denyAC{denied: denied}
 				}
-				lopts := &ipfslog.LogOptions{ID: o.LogID, SortFn: sortFnOf(o.Sort), AccessController: ac}
+				lopts := &ipfslog.LogOptions{ID: o.LogID, SortFn: sortFnOf(o.Sort), AccessController: ac, Concurrency: uint(o.Conc)}
 				if o.Keyed {
 					lopts.IO = w.sealedIO()
 				}
